@@ -33,13 +33,13 @@ PROPS["C10"] = {
     "workers": 8,
     "rule": ("Generated: every byte string of length 0..=5 over {NUL,/,a,b,.,0x80,0xff} through every constructor "
              "(exhaustive), every ordered pair of NUL-free strings of length 0..=3 through path_join/path_join_fmt and "
-             "chained parent/file-name (exhaustive), random strings to 4 KiB, random directories of 0..40 entries with "
+             "chained parent/file-name, and through Clone (clone, clone_from into a longer and a shorter string, the result joined again) (exhaustive), random strings to 4 KiB, random directories of 0..40 entries with "
              "names of 1..255 bytes read back through DirEntry::file_unix_name. Oracle on raw bytes only: last byte NUL, "
              "no other NUL for NUL-free operands, len == strlen+1, fallible constructors reject exactly the "
              "unrepresentable inputs, no panic. Non-trivial = operand non-empty and representable (a value was "
              "produced); distinct by hash of the serialised case."),
     "assumptions": ["x86_64 only", "unix_lit! is compile-time: a fixed set of literals is checked, not generated"],
-    "required_classes": ["one-exh:interior-nul-rejected", "one-exh:parent-root", "one-exh:trailing-separator", "dir:name-255", "dir:name-non-utf8"],
+    "required_classes": ["one-exh:interior-nul-rejected", "one-exh:parent-root", "one-exh:trailing-separator", "dir:name-255", "dir:name-non-utf8", "two-exh:clone_from-into-a-longer-string", "two-rand:clone_from-into-a-shorter-string"],
 }
 
 PROPS["C11"] = {
